@@ -48,6 +48,11 @@ fn wide_pool() -> Vec<Lit> {
         Lit { m: 8, scale: 0, comm: None, grouped: false },
         Lit { m: 0, scale: 2, comm: Some(EUR), grouped: false },
         Lit { m: 3, scale: 0, comm: None, grouped: false },
+        // exactly divisible by 3, 6, 7, 9: a reciprocal-and-multiply "optimisation" would be inexact here
+        Lit { m: 9, scale: 0, comm: Some(USD), grouped: false },
+        Lit { m: 6, scale: 0, comm: None, grouped: false },
+        Lit { m: 4410, scale: 2, comm: Some(EUR), grouped: false },
+        Lit { m: 7, scale: 0, comm: None, grouped: false },
     ]);
     v
 }
